@@ -144,8 +144,10 @@ def _path_obligations(contract, cfg, ctx, kind, payload, pi, base, res, tier, fi
                            info=dict(exc=pr.cls.__name__, where=str(pr.where), args=[str(a)[:80] for a in pr.args_]))
             else:
                 clause = getattr(contract, meth)(h, cfg, h, pr)
-                ctx.oblige('raises.%s' % pr.cls.__name__, clause, kind='raises',
-                           info=dict(exc=pr.cls.__name__))
+                parts = clause if isinstance(clause, (list, tuple)) else [clause]
+                for ci, cl in enumerate(parts):
+                    ctx.oblige('raises.%s%s' % (pr.cls.__name__, '.%d' % ci if len(parts) > 1 else ''), cl, kind='raises',
+                               info=dict(exc=pr.cls.__name__))
             expect = pr.cls.__name__
         fr = contract.frame(h, cfg, h) or {}
         for nm, clause in fr.items():
